@@ -260,3 +260,40 @@ func HarnessUpdateSequence() {
 	vAssert(after.interval == before.interval && after.budget == before.budget && after.maxAge == before.maxAge && after.listen == before.listen,
 		"c18.accepted-update-changed-settings-it-did-not-address")
 }
+
+// HarnessIncompleteConfigRefused (C18, the loaded-from-file side): a configuration in which
+// exactly one property was never set (the key is missing from the file) is refused by verify()
+// - whichever of the properties it is.  The REAL checkIsSetRecursive runs here (a small model
+// of package reflect interprets its walk over the struct); nothing is overridden.
+func HarnessIncompleteConfigRefused() {
+	cfg := NewDefault()
+	unset := []func(){
+		func() { cfg.Proxy.Listen = ConfigProp[string]{} },
+		func() { cfg.Proxy.CaCert = ConfigProp[string]{} },
+		func() { cfg.Proxy.UpstreamDefaultHttps = ConfigProp[bool]{} },
+		func() { cfg.Proxy.RetryOnRange416 = ConfigProp[bool]{} },
+		func() { cfg.Proxy.CachePolicy.IgnoreCacheControl = ConfigProp[bool]{} },
+		func() { cfg.Proxy.CachePolicy.DefaultMaxAge = ConfigProp[duration.Duration]{} },
+		func() { cfg.Webserver.Listen = ConfigProp[string]{} },
+		func() { cfg.Webserver.DashboardDisabled = ConfigProp[bool]{} },
+		func() { cfg.Webserver.ApiDisabled = ConfigProp[bool]{} },
+		func() { cfg.Cache.MaxCacheSize = ConfigProp[bytesize.ByteSize]{} },
+		func() { cfg.Cache.Type = ConfigProp[CacheType]{} },
+		func() { cfg.Cache.LockShards = ConfigProp[int]{} },
+		func() { cfg.Cache.File.Dir = ConfigProp[string]{} },
+		func() { cfg.Cache.Memory.MemoryBudgetPercent = ConfigProp[int]{} },
+		func() { cfg.Logging.ToStdout = ConfigProp[bool]{} },
+		func() { cfg.Logging.Compress = ConfigProp[bool]{} },
+		func() { cfg.Logging.MaxBackups = ConfigProp[int]{} },
+	}
+	which := symChoice(len(unset) + 1)
+	if which == len(unset) {
+		vReach("complete")
+		vAssert(cfg.verify() == nil, "c18.complete-default-config-refused")
+		return
+	}
+	unset[which]()
+	vDropPending()
+	vReach("one-key-missing")
+	vAssert(cfg.verify() != nil, "c18.incomplete-config-accepted")
+}
